@@ -62,6 +62,46 @@ def run(c: Check):
         c.violation({"kind": "concurrent-response", "idok": e["idok"], "qok": e["qok"]},
                     "C07 concurrent response differs from the sequential one or has another requester's shape: client %s profile %s %s %s/%d idok=%s qok=%s shapeok=%s conc=%s | seq=%s" % (
                         e["client"], e["prof"], e["net"], e["name"], e["qtype"], e["idok"], e["qok"], e.get("shapeok"), e["conc"][:400], e["seq"][:400]), e)
+    # ---- the filter layer: concurrent profiles on one real storage with shared, cached rule lists
+    try:
+        out3, _ = c.go_harness("internal/filter/filterstorage", "^TestVerifC07Filters$", files=["c07flt_test.go", "c12_test.go"], race=True,
+                               env={"VERIF_ROUNDS": 8 if th else 3, "VERIF_PER": 600 if th else 300}, timeout=2400)
+    except Undecided as e:
+        msg = str(e)
+        i = msg.find("WARNING: DATA RACE")
+        if i < 0:
+            raise
+        block = msg[i:i + 8000]
+        repo_root = os.environ.get("VERIF_REPO", "/repo").rstrip("/") + "/"
+        owners, tops = [], []
+        for a in block.split("Previous ")[:2]:
+            a = a.split("Goroutine ")[0]
+            frames = [l.strip() for l in a.splitlines() if l.strip().startswith("/")]
+            tops.append(frames[:3])
+            own = "none"
+            for f in frames:
+                if f.startswith(repo_root):
+                    own = "harness" if "zz_verif_" in f else "repo"
+                    break
+            owners.append(own)
+        if owners != ["repo", "repo"]:
+            raise
+        c.violation({"kind": "data-race", "layer": "filter", "where": (tops[0][0] if tops and tops[0] else "").split(" ")[0].replace(
+            os.environ.get("VERIF_REPO", "/repo"), "")},
+                    "C07 data race between concurrent filtering requests of different profiles (race detector):\n" + block[:2500],
+                    {"report": block})
+        return
+    ev3 = read_ndjson(out3)
+    fails3 = c.validate_segments("TraceMsgPool", "TraceMsgPool.cfg", ev3, is_reset=lambda e: True, max_fail=8, timeout=1800)
+    for sg, idx, reason in fails3:
+        e = sg[idx]
+        c.violation({"kind": "concurrent-verdict", "prof": e["prof"]},
+                    "C07 filtering verdict obtained concurrently differs from the one obtained alone: profile %s %s/%d: conc=%s | "
+                    "alone=%s" % (e["prof"], e["host"], e["qtype"], e["conc"][:300], e["seq"][:300]), e)
+    if len(ev3) < 1000 or len(set(e["seq"].split("|")[0] for e in ev3)) < 4:
+        raise Undecided("vacuous: %d concurrent verdicts" % len(ev3))
+    for e in ev3:
+        c.count_case(("flt", e["prof"], e["host"], e["qtype"], e["round"]), nontrivial=not e["seq"].startswith("none"))
     nb = sum(1 for e in ev2 if e["name"].startswith("blocked") and e["prof"] != "anonymous")
     if len(ev2) < 500 or nb < 50:
         raise Undecided("vacuous: %d concurrent responses, %d blocked for profiles" % (len(ev2), nb))
